@@ -17,6 +17,7 @@ InitS == /\ A = Internal /\ B = None
             \/ kind = "word" /\ c \in Words
             \/ kind = "lin"  /\ c \in LinNames \X LinNames
             \/ kind = "ang"  /\ c \in AngNames \X AngNames
+            \/ kind = "share" /\ c \in {"_deg", "_gon"} \X {"from", "to"}
 NextS == UNCHANGED <<kind, c, A, B>>
 SpecS == InitS /\ [][NextS]_<<kind, c, A, B>>
 
@@ -41,6 +42,15 @@ EmitS ==
                               good |-> GoodSuf, bad |-> BadSuf])>>)
       [] kind = "lin"  -> PrintT(<<"UNIT", ToJson([kind |-> "lin", a |-> UnitText(c[1]), b |-> UnitText(c[2]),
                               fa |-> LinearUnits[c[1]], fb |-> LinearUnits[c[2]]])>>)
+      \* the mappings adapt and unitconvert share: a pure angular unit change of the
+      \* horizontal coordinates, Map(enuf_u, enuf) resp. its inverse
+      [] kind = "share" -> LET D == [ax |-> <<1, 2, 3, 4>>, sg |-> <<1, 1, 1, 1>>, suf |-> c[1]]
+                               u == IF c[1] = "_deg" THEN "deg" ELSE "grad"
+                               M == IF c[2] = "from" THEN Map(D, Internal) ELSE Map(Internal, D)
+                           IN PrintT(<<"SHARE", ToJson([a |-> "adapt " \o c[2] \o "=" \o DText(D),
+                                  b |-> IF c[2] = "from" THEN "unitconvert xy_in=" \o u \o " xy_out=rad"
+                                        ELSE "unitconvert xy_in=rad xy_out=" \o u,
+                                  map |-> MapText(M)])>>)
       [] kind = "ang"  -> PrintT(<<"UNIT", ToJson([kind |-> "ang", a |-> c[1], b |-> c[2],
                               fa |-> AngularUnits[c[1]], fb |-> AngularUnits[c[2]]])>>)
 =============================================================================
